@@ -249,6 +249,13 @@ func c14Judge(op []string, out string) string {
 		if !strings.HasPrefix(out, want) {
 			return "the parser did not extract the declared definitions (" + op[1] + "): got " + clip(out) + " want " + clip(want)
 		}
+	case "c14.classify":
+		// independent reading of the text (one definition per line) and the documented rule
+		if sc, ok := c14ReadLines(c14Unesc(op[1])); ok {
+			if want := c14ExpectClassify(sc); out != want {
+				return "classification differs from the rule (no parameter in any constructor → enum; one constructor → struct; else interface): got " + clip(out) + " want " + clip(want)
+			}
+		}
 	case "c14.gen":
 		exp := strings.Join(op[3:], " ")
 		want := "gen=ok same=1 build=ok vet=ok D=" + c14Show(c14UnescExpected(exp))
@@ -328,6 +335,8 @@ func c14Gen(g *G) {
 	g.Emit(c14ParseOp("witness-empty", "", ""), "witness")
 	g.Emit(c14ParseOp("witness-plain-comment", "// plain comment\nfoo#1 = Foo;\n", "(o foo 1 Foo)"), "witness")
 	g.Emit(c14ParseOp("witness-bare-comment", "// ===8===\nfoo#1 x:int = Foo;\n", "(o foo 1 Foo (p x int 0 0 0))"), "witness")
+	g.Emit(c14ParseOp("witness-comment-then-dash", "//\n-", ""), "witness")
+	g.Emit(c14ParseOp("witness-comment-then-dashes", "foo#1 = Foo;\n// x\n--", "(o foo 1 Foo)"), "witness")
 	g.Emit(c14ParseOp("no-final-newline", "foo#1 = Foo;", "(o foo 1 Foo)"), "boundary")
 	g.Emit(c14ParseOp("only-newline", "\n", ""), "boundary")
 	g.Emit(c14ParseOp("only-marker", "---functions---", ""), "boundary")
@@ -387,7 +396,7 @@ func c14Gen(g *G) {
 			upperHex: r.Intn(8) == 0, padHex: r.Intn(4) == 0}
 	}
 	var pool []string
-	for i, n := 0, g.N(150, 3000); i < n; i++ {
+	for i, n := 0, g.N(400, 12000); i < n; i++ {
 		o := c14GenOpts{size: 1 + r.Intn(8), tricky: r.Intn(4) == 0, clash: r.Intn(4) == 0}
 		s, _ := c14RandSchema(r, o)
 		text := c14Render(s, layouts(), r)
@@ -397,10 +406,10 @@ func c14Gen(g *G) {
 		g.Emit(c14ParseOp("gen", text, c14ExpectStructure(s)), "gen-schema")
 	}
 	// (3) malformed texts: mutations and every prefix of a few schemas (termination, no panic, model agreement)
-	for i, n := 0, g.N(300, 6000); i < n; i++ {
+	for i, n := 0, g.N(800, 30000); i < n; i++ {
 		g.Emit(c14ParseOp("mut", c14Mutate(r, pool[r.Intn(len(pool))]), "-"), "mutated")
 	}
-	for i, n := 0, g.N(1, 12); i < n; i++ {
+	for i, n := 0, g.N(2, 40); i < n; i++ {
 		s, _ := c14RandSchema(r, c14GenOpts{size: 2})
 		rs := []rune(c14Render(s, c14Layout{}, r))
 		if len(rs) > 700 {
@@ -410,13 +419,24 @@ func c14Gen(g *G) {
 			g.Emit(c14ParseOp("prefix", string(rs[:k]), "-"), "prefix")
 		}
 	}
+	// texts that stop inside a keyword or a definition: the cursor's behaviour at the last rune
+	tails := []string{"-", "--", "---", "---f", "---functions--", "---types---", "/", "//", "//\n-", "// x\n--", "\n-", "=", "flags.", "Vector",
+		"Vector<", "fl", "foo#1 =", "foo#1 x:fl", "foo#1 x:flags.1", "foo#1 x:flags.1?", "foo#1 x:Vector<int", "foo#1 x:int =", "foo#1 = Vector<X>",
+		"true#;€€€ ", "€", "int ", "int ?", "true#", "foo#1 = Vector", "foo#1 x:V", "//\n/", "//\n//\n---", "\n \n-", "// @param"}
+	for i, n := 0, g.N(200, 4000); i < n; i++ {
+		t := pool[r.Intn(len(pool))]
+		if r.Intn(3) == 0 {
+			t = ""
+		}
+		g.Emit(c14ParseOp("tail", t+tails[r.Intn(len(tails))], "-"), "tail")
+	}
 	// (4) classification
-	for i, n := 0, g.N(60, 1000); i < n; i++ {
+	for i, n := 0, g.N(150, 5000); i < n; i++ {
 		s, _ := c14RandSchema(r, c14GenOpts{size: 1 + r.Intn(10), clash: r.Intn(3) == 0})
 		g.Emit("c14.classify "+c14Esc(c14Render(s, c14Layout{}, r)), "classify")
 	}
 	// (5) the real generator: byte identity of two runs, compilation, declarations
-	for i, n := 0, g.N(6, 60); i < n; i++ {
+	for i, n := 0, g.N(12, 100); i < n; i++ {
 		o := c14GenOpts{forGen: true, size: 2 + r.Intn(9), tricky: i%2 == 0, clash: i%3 != 2}
 		s, _ := c14RandSchema(r, o)
 		text := c14Render(s, c14Layout{}, r)
